@@ -43,7 +43,7 @@ class Play:
     """one run of the binary"""
 
     def __init__(self, text, args=None, outdir_arg=None, timeout=60, env=None, extra_files=None,
-                 keep=False, sigspec=None, cfg_name="play.cfg", points=None, tty_cols=None):
+                 keep=False, sigspec=None, cfg_name="play.cfg", points=None, tty_cols=None, more_signals=None, start_ignoring=None):
         self.text = text
         self.args = list(args or [])
         self.outdir_arg = outdir_arg      # as given to -o (may be relative to cwd)
@@ -55,6 +55,8 @@ class Play:
         self.cfg_name = cfg_name
         self.points = points              # VERIF_POINTS for the verif-tagged binary (steers schedules)
         self.tty_cols = tty_cols          # standard output is a pseudo-terminal that many columns wide
+        self.more_signals = more_signals or []    # [(delay_s after the previous signal, signal)] after sigspec
+        self.start_ignoring = start_ignoring or []  # signals whose disposition is "ignored" when the process starts (nohup, `cmd &` in a script)
 
     def run(self):
         self.cwd = tempfile.mkdtemp(prefix="verif-play-")
@@ -83,13 +85,20 @@ class Play:
         if self.env:
             env.update(self.env)
         t0 = time.time()
+        ign = list(self.start_ignoring)
+
+        def pre():
+            for sg in ign:
+                signal.signal(sg, signal.SIG_IGN)
+        if not ign:
+            pre = None
         tty_out, tty_thread = [], None
         if self.tty_cols is not None:
             import pty, fcntl, termios, struct, threading
             master, slave = pty.openpty()
             fcntl.ioctl(slave, termios.TIOCSWINSZ, struct.pack("HHHH", 24, self.tty_cols, 0, 0))
             p = subprocess.Popen(argv, cwd=self.cwd, env=env, stdout=slave, stderr=subprocess.PIPE,
-                                 stdin=subprocess.DEVNULL, text=True, start_new_session=True)
+                                 stdin=subprocess.DEVNULL, text=True, start_new_session=True, preexec_fn=pre)
             os.close(slave)
 
             def drain():
@@ -106,7 +115,7 @@ class Play:
             tty_thread.start()
         else:
             p = subprocess.Popen(argv, cwd=self.cwd, env=env, stdout=subprocess.PIPE, stderr=subprocess.PIPE,
-                                 stdin=subprocess.DEVNULL, text=True, start_new_session=True)
+                                 stdin=subprocess.DEVNULL, text=True, start_new_session=True, preexec_fn=pre)
         timed_out = False
         if self.sigspec:
             delay, sig = self.sigspec
@@ -117,6 +126,12 @@ class Play:
                     os.kill(p.pid, sig)
                 except ProcessLookupError:
                     pass
+                for d2, s2 in self.more_signals:
+                    time.sleep(d2)
+                    try:
+                        os.kill(p.pid, s2)
+                    except ProcessLookupError:
+                        pass
                 out = err = None
         else:
             out = err = None
